@@ -420,8 +420,8 @@ pub const ID_VERS: usize = 49;
 pub const ID_ERR_NEXT: usize = 50;
 pub const ID_ERR_COUNT: usize = 51;
 #[derive(Clone, Debug)]
-pub struct ODev { pub level: u8, pub text: Vec<u8>, pub block: Vec<u8>, pub queue: Vec<Exp> }
-impl ODev { pub fn new() -> ODev { ODev { level: 0, text: vec![], block: vec![], queue: vec![] } } }
+pub struct ODev { pub level: u8, pub text: Vec<u8>, pub block: Vec<u8>, pub queue: Vec<Exp>, pub qcap: usize }
+impl ODev { pub fn new() -> ODev { ODev { level: 0, text: vec![], block: vec![], queue: vec![], qcap: QCAP } } }
 pub fn hexs(b: &[u8]) -> String { b.iter().map(|x| format!("{x:02x}")).collect() }
 fn int(a: &TArg) -> i128 { if let TArg::Int(v) = a { *v } else { unreachable!() } }
 
@@ -517,7 +517,7 @@ pub fn toks_len(o: &[Tok]) -> (usize, usize) { let (mut lo, mut hi) = (0, 0); fo
 
 /// C09: an error arriving while the queue is full replaces the newest stored entry by -350
 pub fn queue_push(d: &mut ODev, e: Exp) {
-    if d.queue.len() < QCAP { d.queue.push(e); } else if let Some(l) = d.queue.last_mut() { *l = Exp::Exact(E_QUEUE_OVERFLOW); }
+    if d.queue.len() < d.qcap { d.queue.push(e); } else if let Some(l) = d.queue.last_mut() { *l = Exp::Exact(E_QUEUE_OVERFLOW); }
 }
 pub fn log_err(st: &mut RunSt, e: Exp) { st.log.push(OEv::Err(e.clone())); queue_push(&mut st.dev, e); }
 
